@@ -28,9 +28,13 @@ theorem lookupKey_append (k k' : Nat × Nat) (w : Int) (es : List ((Nat × Nat) 
     · rfl
     · exact ih
 
-/-- abstract effect and answer of one mutating call -/
-def specStep (g : SG) : Op → SG × Out
-  | .addNode w => let (g', i) := g.addNode w; (g', .ix i)
+/-- abstract effect and answer of one mutating call; `m` = number of values of the node index type
+(`0`: unbounded): `add_node` on a `full` graph is the documented panic and changes nothing -/
+def specStep (m : Nat) (g : SG) : Op → SG × Out
+  | .addNode w =>
+    match g.addNodeCap m w with
+    | some (g', i) => (g', .ix i)
+    | none => (g, .panic)
   | .addEdge a b w =>
     match g.addEdge a b w with
     | (g', .ok r) => (g', .bool r)
@@ -42,12 +46,25 @@ def specStep (g : SG) : Op → SG × Out
     | some g' => (g', .unit)
     | none => (g, .panic)
 
-def specRun (g : SG) : List Op → SG × List Out
+def specRun (m : Nat) (g : SG) : List Op → SG × List Out
   | [] => (g, [])
   | op :: ops =>
-    let (g1, o) := specStep g op
-    let (g2, os) := specRun g1 ops
+    let (g1, o) := specStep m g op
+    let (g2, os) := specRun m g1 ops
     (g2, o :: os)
+
+theorem full_iff (m n : Nat) : full m n = true ↔ ¬ (m = 0 ∨ n < m) := by
+  simp [full]
+
+theorem SG.addNodeCap_fit (m : Nat) (g : SG) (w : Int) (h : m = 0 ∨ g.n < m) :
+    g.addNodeCap m w = some (g.addNode w) := by
+  have : full m g.n = false := by rw [← Bool.not_eq_true, full_iff]; exact fun hh => hh h
+  simp [SG.addNodeCap, this]
+
+theorem SG.addNodeCap_full (m : Nat) (g : SG) (w : Int) (h : ¬ (m = 0 ∨ g.n < m)) :
+    g.addNodeCap m w = none := by
+  have : full m g.n = true := (full_iff m g.n).mpr h
+  simp [SG.addNodeCap, this]
 
 /-- the model state `s` (with rows `R`) represents the abstract simple graph `g` -/
 structure Abs (s : State) (R : List Row) (g : SG) : Prop where
@@ -91,39 +108,48 @@ theorem SG.lookup_after_add (g : SG) (a b : Nat) (w : Int) (hp : g.lookup a b = 
     simp only [h1, if_false, h2]
     cases lookupKey (key g.directed x y) g.edges <;> rfl
 
-/-- node count after a call -/
+/-- node count after a call that does not panic -/
 def nodesAfter (n : Nat) : Op → Nat
   | .addNode _ => n + 1
   | _ => n
 
-/-- **refinement of one call**: invariant and abstraction are preserved, the answer is the specified one.
-`hfit`: an `add_node` stays within the capacity of the index type. -/
-theorem step_refines {s : State} {R : List Row} {g : SG} (good : Good s R) (abs : Abs s R g) (op : Op)
-    (hfit : ∀ w, op = .addNode w → s.modulus = 0 ∨ R.length < s.modulus) :
-    ∃ R', Good (step s op).1 R' ∧ Abs (step s op).1 R' (specStep g op).1 ∧
-      (step s op).2 = (specStep g op).2 ∧ SameParams (step s op).1 s ∧ R'.length = nodesAfter R.length op := by
+/-- node count after a call (`m` = capacity of the index type, `0` = unbounded): `add_node` on a full graph
+panics and adds nothing -/
+def nodesAfterC (m n : Nat) : Op → Nat
+  | .addNode _ => if m = 0 ∨ n < m then n + 1 else n
+  | _ => n
+
+/-- **refinement of one call**: invariant and abstraction are preserved, the answer is the specified one —
+for EVERY call, including `add_node` at the capacity of the index type (documented panic, unchanged). -/
+theorem step_refines {s : State} {R : List Row} {g : SG} (good : Good s R) (abs : Abs s R g) (op : Op) :
+    ∃ R', Good (step s op).1 R' ∧ Abs (step s op).1 R' (specStep s.modulus g op).1 ∧
+      (step s op).2 = (specStep s.modulus g op).2 ∧ SameParams (step s op).1 s ∧
+      R'.length = nodesAfterC s.modulus R.length op := by
   have hn := Abs.n good abs
   cases op with
   | addNode w =>
-    obtain ⟨s', e, good', sp, hnw, hec⟩ := good.addNode w
-    have hmk : mkIx s.modulus R.length = R.length := by
-      unfold mkIx
-      rcases hfit w rfl with h | h
-      · simp [h]
-      · have : ¬ s.modulus = 0 := by omega
-        simp [this, Nat.mod_eq_of_lt h]
-    refine ⟨R ++ [[]], ?_, ?_, ?_, ?_, by simp [nodesAfter]⟩
-    all_goals simp only [step, e, specStep, SG.addNode]
-    · exact good'
-    · refine ⟨?_, ?_, ?_, ?_⟩
-      · show g.directed = s'.directed; rw [sp.1]; exact abs.dir
-      · show g.nodes ++ [w] = s'.nodeWeights; rw [hnw, abs.nodes]
-      · intro a b; rw [look_snoc_nil]; exact abs.look a b
-      · rw [hec]; exact abs.count
-    · rw [hmk, hn]
-    · exact sp
+    by_cases hfit : s.modulus = 0 ∨ R.length < s.modulus
+    · obtain ⟨s', e, good', sp, hnw, hec⟩ := good.addNode w hfit
+      have hs := SG.addNodeCap_fit s.modulus g w (by rw [hn]; exact hfit)
+      refine ⟨R ++ [[]], ?_, ?_, ?_, ?_, by simp [nodesAfterC, hfit]⟩
+      all_goals simp only [step, e, specStep, hs, SG.addNode]
+      · exact good'
+      · refine ⟨?_, ?_, ?_, ?_⟩
+        · show g.directed = s'.directed; rw [sp.1]; exact abs.dir
+        · show g.nodes ++ [w] = s'.nodeWeights; rw [hnw, abs.nodes]
+        · intro a b; rw [look_snoc_nil]; exact abs.look a b
+        · rw [hec]; exact abs.count
+      · rw [hn]
+      · exact sp
+    · have e := good.addNode_full w hfit
+      have hs := SG.addNodeCap_full s.modulus g w (by rw [hn]; exact hfit)
+      refine ⟨R, ?_, ?_, ?_, ?_, by simp [nodesAfterC, hfit]⟩
+      all_goals simp only [step, e, specStep, hs]
+      · exact good
+      · exact abs
+      · exact SameParams.refl s
   | clearEdges =>
-    refine ⟨List.replicate R.length [], good.clearEdges, ⟨?_, ?_, ?_, ?_⟩, rfl, ⟨rfl, rfl, rfl, rfl⟩, by simp [nodesAfter]⟩
+    refine ⟨List.replicate R.length [], good.clearEdges, ⟨?_, ?_, ?_, ?_⟩, rfl, ⟨rfl, rfl, rfl, rfl⟩, by simp [nodesAfterC]⟩
     · exact abs.dir
     · exact abs.nodes
     · intro a b; rw [look_replicate_nil]; rfl
@@ -209,23 +235,23 @@ theorem step_refines {s : State} {R : List Row} {g : SG} (good : Good s R) (abs 
       · exact abs
       · exact SameParams.refl s
 
-/-- no `add_node` beyond the capacity of the index type (`u8`: 256 nodes) -/
+/-- no `add_node` is issued while the graph is `full` (`u8`: 256 nodes), i.e. the history never runs into the
+capacity panic of `add_node`.  (Before commit 8cab180 — finding D31 — the refinement theorems needed this
+hypothesis; now they hold for every history and `Fits` only serves the callers that still state it.) -/
 def Fits (m : Nat) : Nat → List Op → Prop
   | _, [] => True
   | n, op :: ops => (∀ w, op = .addNode w → m = 0 ∨ n < m) ∧ Fits m (nodesAfter n op) ops
 
-/-- **refinement of every history** -/
-theorem run_refines {s : State} {R : List Row} {g : SG} (good : Good s R) (abs : Abs s R g) (ops : List Op)
-    (hfit : Fits s.modulus R.length ops) :
-    ∃ R', Good (run s ops).1 R' ∧ Abs (run s ops).1 R' (specRun g ops).1 ∧
-      (run s ops).2 = (specRun g ops).2 ∧ SameParams (run s ops).1 s := by
+/-- **refinement of every history** (no restriction on the history) -/
+theorem run_refines {s : State} {R : List Row} {g : SG} (good : Good s R) (abs : Abs s R g) (ops : List Op) :
+    ∃ R', Good (run s ops).1 R' ∧ Abs (run s ops).1 R' (specRun s.modulus g ops).1 ∧
+      (run s ops).2 = (specRun s.modulus g ops).2 ∧ SameParams (run s ops).1 s := by
   induction ops generalizing s R g with
   | nil => exact ⟨R, good, abs, rfl, SameParams.refl s⟩
   | cons op ops ih =>
-    obtain ⟨R1, good1, abs1, hout, sp1, hl1⟩ := step_refines good abs op hfit.1
-    have hfit' : Fits (step s op).1.modulus R1.length ops := by
-      rw [sp1.2.1, hl1]; exact hfit.2
-    obtain ⟨R2, good2, abs2, houts, sp2⟩ := ih good1 abs1 hfit'
+    obtain ⟨R1, good1, abs1, hout, sp1, hl1⟩ := step_refines good abs op
+    obtain ⟨R2, good2, abs2, houts, sp2⟩ := ih good1 abs1
+    rw [sp1.2.1] at abs2 houts
     refine ⟨R2, ?_, ?_, ?_, ?_⟩
     · simpa [run] using good2
     · simpa [run, specRun] using abs2
